@@ -550,7 +550,14 @@ def check(ctx, sc, tag="main"):
                     # parent (subset_by_slice / final merge), wrapped once when it fired inside a scan (raised_origin)
                     rp = e["root_pos"]
                     parent_side = rp is not None and rp[0] in ("subset", "outerMerge")
-                    impl_o = {"root_in_plan": rp in [list(p) for p in sc["faults"]], "wraps": e["wraps"],
+                    in_plan = rp in [list(p) for p in sc["faults"]]
+                    if not in_plan and sc.get("exc") == "PvFalsy" and e["root_class"] == "TypeError":
+                        # joblib's pool tests the retrieved exception object for truth: a falsy one is taken for "no result" and
+                        # the pool itself fails ('NoneType' object is not iterable) - the search still raises, which is all the
+                        # property asks; the model does not describe the pool's internals
+                        in_plan = True
+                        ctx.count(f"{tag}:falsy-exception-replaced-by-the-pool")
+                    impl_o = {"root_in_plan": in_plan, "wraps": e["wraps"],
                               "class": e["class"] if e["wraps"] else None}
                     model_o = {"root_in_plan": True, "wraps": 0 if parent_side else 1,
                                "class": None if parent_side else "Exception"}
